@@ -890,7 +890,7 @@ class AddDataProviderReq:
                 "positionConfidenceEllipse": {
                     "semiMajorConfidence": self.location.reference_position.position_confidence_ellipse.semi_major_confidence,
                     "semiMinorConfidence": self.location.reference_position.position_confidence_ellipse.semi_minor_confidence,
-                    "semiMajorOrientation": self.location.reference_position.position_confidence_ellipse.semi_minor_confidence,
+                    "semiMajorOrientation": self.location.reference_position.position_confidence_ellipse.semi_major_orientation,
                 },
                 "altitude": {
                     "altitudeValue": self.location.reference_position.altitude.altitude_value,
@@ -962,7 +962,7 @@ class AddDataProviderReq:
                     "positionConfidenceEllipse": {
                         "semiMajorConfidence": self.location.reference_position.position_confidence_ellipse.semi_major_confidence,
                         "semiMinorConfidence": self.location.reference_position.position_confidence_ellipse.semi_minor_confidence,
-                        "semiMajorOrientation": self.location.reference_position.position_confidence_ellipse.semi_minor_confidence,
+                        "semiMajorOrientation": self.location.reference_position.position_confidence_ellipse.semi_major_orientation,
                     },
                     "altitude": {
                         "altitudeValue": self.location.reference_position.altitude.altitude_value,
